@@ -40,7 +40,7 @@ def plan(tier):
 def floors(tier):
     return {"nontrivial": 12, "counter:fits": 100, "counter:truth_clause_checks": 20, "counter:box_checks": 100, "counter:no_worse_checks": 80,
             "counter:active_bound_fits": 15, "class:Square": 8, "class:Normal": 5, "class:Gamma": 3,
-            "counter:zero_bound_fits": 20, "class:tiny-parameter": 8, "counter:sibling_calls": 30, "class:x0-ndarray-shared": 15, "counter:zero_bound_active": 5}
+            "counter:zero_bound_fits": 20, "counter:half_open_box_fits": 20, "class:tiny-parameter": 8, "counter:sibling_calls": 30, "class:x0-ndarray-shared": 15, "counter:zero_bound_active": 5}
 
 
 def run_case(rng, idx, tier, lane, ctx):
@@ -148,10 +148,26 @@ def run_case(rng, idx, tier, lane, ctx):
             box = (lo2, ub)
         start = np.array([rng.uniform(l + 0.1 * (u - l), u - 0.1 * (u - l)) for l, u in zip(*box)])
         runs.append(("active" if rep == 2 else "interior", start, box[0], box[1]))
+        if rep == 2:
+            # the same active lower bound given as a HALF-OPEN box: only lb (ub omitted), or None for every open side
+            form = rng.choice(["lb-only", "none-entries"])
+            runs.append(("active/" + form, start.copy(), box[0], box[1]))
     for label, start, lo, hi in runs:
         try:
             with contextlib.redirect_stdout(io.StringIO()), np.errstate(all="ignore"):
-                xh = np.asarray(obj.fit(list(start), lb=lo if label != "zero-bound" else list(lo), ub=hi if label != "zero-bound" else list(hi)), dtype=float)
+                if label == "active/lb-only":
+                    xh = np.asarray(obj.fit(list(start), lb=[float(v) for v in lo]), dtype=float)
+                    hi = np.full(len(lo), np.inf)
+                    counters["half_open_box_fits"] = counters.get("half_open_box_fits", 0) + 1
+                elif label == "active/none-entries":
+                    act = int(np.argmax(np.asarray(lo) > 0.99 * th * 1.3 / 1.0)) if np.any(np.asarray(lo) > th) else 0
+                    lo_arg = [float(v) if (i_ == act or rng.random() < 0.5) else None for i_, v in enumerate(lo)]
+                    xh = np.asarray(obj.fit(list(start), lb=lo_arg, ub=[None] * len(lo)), dtype=float)
+                    lo = np.array([v if v is not None else -np.inf for v in lo_arg], dtype=float)
+                    hi = np.full(len(lo), np.inf)
+                    counters["half_open_box_fits"] = counters.get("half_open_box_fits", 0) + 1
+                else:
+                    xh = np.asarray(obj.fit(list(start), lb=lo if label != "zero-bound" else list(lo), ub=hi if label != "zero-bound" else list(hi)), dtype=float)
         except Exception as e:
             if type(e).__name__ == "IntegrationError":
                 # an explicit refusal: the optimiser visited a point of the box at which the model's solution blows up before the last
@@ -181,7 +197,7 @@ def run_case(rng, idx, tier, lane, ctx):
                     x_start=start.tolist(), returned=xh.tolist())
             if c1 >= 0 and c0 > 100 * max(c1, 1e-300) and c.kind == "Square":
                 nontriv = True
-        if label == "active":
+        if label.startswith("active"):
             if np.any(np.abs(xh - lo) <= 1e-9 * (1 + np.abs(lo))):
                 counters["active_bound_fits"] += 1
                 nontriv = True
